@@ -118,6 +118,10 @@ func (v *victim) wrapPacket(msg []byte, crc bool) []byte {
 	}
 	var out []byte
 	v.rig.C.Net.Rand(func(r *rand.Rand) { out = BuildPacket(pc, msg, r) })
+	if v.cfg.Skip {
+		// an outer layer already removed the header; the label stays the associated data
+		out = out[len(LabelHeader(v.cfg.Label)):]
+	}
 	return out
 }
 
@@ -128,7 +132,15 @@ func (v *victim) wrapStream(msg []byte, compress bool) (header, frame []byte) {
 		sc.Key, sc.EncVsn = v.k1, v.cfg.EncVsn
 	}
 	v.rig.C.Net.Rand(func(r *rand.Rand) { frame = BuildStreamMsg(sc, msg, r) })
-	return LabelHeader(v.cfg.Label), frame
+	return v.header(), frame
+}
+
+// header is the label header genuine inbound traffic carries for this victim.
+func (v *victim) header() []byte {
+	if v.cfg.Skip {
+		return nil
+	}
+	return LabelHeader(v.cfg.Label)
 }
 
 // digest is a cheap fingerprint of everything an undecodable input must not touch.
@@ -189,6 +201,12 @@ func (v *victim) decodableLeaves(raw []byte) (any bool, why string) {
 	rest, label, err := StripLabel(raw)
 	if err != nil {
 		return false, "label header malformed"
+	}
+	if v.cfg.Skip {
+		if label != "" {
+			return false, "label header although the outer layer strips it"
+		}
+		label = v.cfg.Label
 	}
 	if label != v.cfg.Label {
 		return false, "label mismatch"
